@@ -67,9 +67,14 @@ def new_constants(tree, ref_names):
     for n in ast.walk(tree):
         if isinstance(n, ast.Subscript) and isinstance(n.ctx, (ast.Store, ast.Del)) and isinstance(n.value, ast.Name):
             mutated.add(n.value.id)
+        elif isinstance(n, ast.Subscript) and isinstance(n.ctx, (ast.Store, ast.Del)) and isinstance(n.value, ast.Attribute):
+            mutated.add(n.value.attr)  # self.TABLE[k] = v / cls.TABLE[k] = v: a class-level table that is written to
         elif isinstance(n, ast.Call) and isinstance(n.func, ast.Attribute) and isinstance(n.func.value, ast.Name) and n.func.attr in (
                 "append", "extend", "insert", "remove", "pop", "clear", "sort", "reverse", "add", "discard", "update", "setdefault", "popitem"):
             mutated.add(n.func.value.id)
+        elif isinstance(n, ast.Call) and isinstance(n.func, ast.Attribute) and isinstance(n.func.value, ast.Attribute) and n.func.attr in (
+                "append", "extend", "insert", "remove", "pop", "clear", "sort", "reverse", "add", "discard", "update", "setdefault", "popitem"):
+            mutated.add(n.func.value.attr)
         elif isinstance(n, ast.AugAssign) and isinstance(n.target, ast.Name):
             mutated.add(n.target.id)
     mod_consts, cls_consts = {}, {}
